@@ -48,7 +48,11 @@ def known(d):
     """D15: OverlayFS::remove_file on a directory that exists only in a lower layer succeeds (pinned by the
     existing test read_dir_removed_entries); its lower-layer children stay reachable by path"""
     p = d.get("orphan")
-    if not p or not d.get("cfg", "").startswith(("ovl", "alt_ovl")):
+    if not d.get("cfg", "").startswith(("ovl", "alt_ovl")):
+        return None
+    if d.get("spec") and "contract says err for `removefile" in d.get("note", "") and "answered ok" in d.get("note", ""):
+        return "D15"
+    if not p:
         return None
     lines = d["case_text"].splitlines()
     for l in lines:
